@@ -195,7 +195,10 @@ def Adv.vertex (st : Adv α) (pos : P α) (id : Nat) (isLeft : Bool) : Adv α :=
         else (st.tess, sideEv, oppEv)
       let (s', tr, v) := flushSide sideEv (!isLeft)
       match v with
-      | some mv => ((tess.pushTris tr).vertex mv, s', { oppEv with consRefX := oppEv.refPt.x })
+      | some mv =>
+        -- lyon 9b7220fb: the vertex being added is part of the restarted chain's reference as well
+        let rx := if isLeft then Scalar.max s'.refPt.x pos.x else Scalar.min s'.refPt.x pos.x
+        ((tess.pushTris tr).vertex mv, { s' with refPt := ⟨rx, s'.refPt.y⟩ }, { oppEv with consRefX := oppEv.refPt.x })
       | none => (tess, sideEv, oppEv)
     else (st.tess, sideEv, oppEv)
   let sideEv := sideEv.push ⟨pos, id, isLeft⟩
